@@ -256,12 +256,14 @@ def run(t):
     finally:
         shutil.rmtree(d, ignore_errors=True)
     run.cov["rule"] = ("scenarios = sink configurations {file ok, none, file in missing directory, directory as file, /dev/full, AMQP broker "
-                       "refusing, AMQP refusing + file}; each: a real server.Handler behind a loopback listener, N concurrent clients "
+                       "refusing, AMQP refusing + file, scripted AMQP broker acknowledging (+ file), scripted broker cycling through 13 behaviours per connection (ack, nack, late ack, "
+                       "connection cut / connection.close / channel.close instead of a confirmation, exchange.declare or confirm.select or the credentials refused, cut during the handshake "
+                       "or after the declaration) with and without the file, acknowledging broker + /dev/full}; the AMQP publisher alone against each of the 11 behaviours (transcripts validated by AmqpPublish_Trace); each: a real server.Handler behind a loopback listener, N concurrent clients "
                        "signing a seeded mix (3 key names incl. an alias, jar/pe-coff/ps/pgp, 3 digests); hook events + client-side "
                        "request/response events + the audit file's actual lines form one trace validated by SignServer_Trace with all "
                        "invariants after every event; the appenders' system calls (strace) validated by AuditLog_Trace; standalone "
                        "binary with auditfile. evaluations = requests issued")
-    run.assumptions += ["no AMQP broker in the sandbox: the AMQP success path is covered by the model only, the refusing-broker path for real",
+    run.assumptions += ["no AMQP broker in the sandbox: the broker is a stand-in (harness/internal/fakeamqp) that speaks AMQP 0-9-1 as far as a confirming publisher needs it; what a real broker does beyond its eleven scripted behaviours (flow control, blocked connections, heartbeat loss, a confirmation that never comes) is not covered",
                         "ordering evidence comes from verif hooks (process-wide sequence counter); end-state checks (line count = 2xx "
                         "count, one JSON object per line, no 2xx when a sink is unwritable) are hook-independent"]
     return run.finish()
